@@ -1,5 +1,5 @@
 """Property id -> rules, and the texts that go to MANIFEST / evidence."""
-from .rules import optab, sign, role
+from .rules import optab, sign, role, memo
 
 PROPS = dict()
 NOT_BUILT = dict()
@@ -24,6 +24,8 @@ prop('C01', [
     optab.r_optab_functions({'dd.autoref'}),
     sign.r_sign,
     role.r_role,
+    memo.r_memo,
+    memo.r_inval,
 ],
     'every operator alias of dd._abc is interpreted through BDD.apply over '
     'the Boolean domain and compared with its connective (27 aliases, 8 '
@@ -59,6 +61,7 @@ prop('C03', [
     sign.r_sign,
     role.r_role,
     role.r_conn,
+    memo.r_memo,
 ],
     'complement push-down in _quantify on every path; LOW/HIGH roles into '
     'find_or_add; ite(p, q, -1) under forall / ite(p, 1, q) otherwise are '
@@ -72,6 +75,7 @@ prop('C03', [
 prop('C04', [
     sign.r_sign,
     role.r_role,
+    memo.r_memo,
 ],
     'sign accounting in _cofactor, _compose, _vector_compose, _copy_bdd '
     '(hit and miss paths); a true value selects the HIGH successor in '
@@ -84,6 +88,7 @@ prop('C04', [
 prop('C05', [
     sign.r_sign,
     role.r_role,
+    memo.r_memo,
 ],
     'printer _to_expr: sign and roles (ite(var, HIGH, LOW), FALSE/TRUE '
     'shortcut).',
@@ -92,6 +97,7 @@ prop('C05', [
     'printer')
 prop('C07', [
     role.r_role,
+    memo.r_inval,
 ],
     'swap: old children released and new children acquired for every '
     'rewritten node, candidates handed to the rooted collection, '
@@ -105,6 +111,7 @@ prop('C07', [
 prop('C10', [
     sign.r_sign,
     role.r_role,
+    memo.r_memo,
 ],
     'sign accounting in _sat_len (hit and miss) and _sat_iter; False '
     'travels with LOW and True with HIGH in the enumeration.',
@@ -114,6 +121,7 @@ prop('C10', [
 prop('C11', [
     sign.r_sign,
     role.r_role,
+    memo.r_memo,
 ],
     'sign and roles in dd.bdd._copy_bdd and dd._copy._copy_bdd; rebuild '
     'through ite on the target variable.',
@@ -122,6 +130,7 @@ prop('C11', [
 prop('C12', [
     sign.r_sign,
     role.r_role,
+    memo.r_memo,
 ],
     'sign and roles across pickle/JSON writers and readers.',
     'file-system behaviour, shelve.',
@@ -130,6 +139,7 @@ prop('C13', [
     sign.r_sign,
     role.r_role,
     role.r_conn,
+    memo.r_memo,
 ],
     'cofactor roles and homogeneity in _image; ite(g, HIGH, LOW); AND/OR '
     'encodings under forall.',
@@ -140,6 +150,8 @@ prop('C15', [
     optab.r_apply_validates([('dd.mdd', 'MDD')]),
     optab.r_ite_terminals,
     sign.r_sign,
+    memo.r_memo,
+    memo.r_inval,
 ],
     'MDD.apply interpreted per alias against the connectives and against '
     'BDD.apply; terminal cases of MDD.ite; sign in MDD._top_cofactor and '
